@@ -114,7 +114,10 @@ func Watchdog(rec *verifkit.Rec) (stop func()) {
 			if time.Since(since) < 3*time.Second {
 				continue
 			}
-			if ok, proof := DeadlockProof(); ok && !ProofDisabled.Load() {
+			// only goroutines of the engine's own case count (an earlier, already reported deadlock of the dedicated
+			// restore-vs-watch test leaves its goroutines behind for good)
+			if ok, proof := DeadlockProof(); ok && !ProofDisabled.Load() &&
+				strings.Contains(proof, "verifc18.(*runner).restorer") && strings.Contains(proof, "verifc18.(*runner).watcher") {
 				c := rec.NewCase()
 				if p := Current.Load(); p != nil {
 					c.Op(p)
